@@ -80,7 +80,7 @@ CHECKS = {
     "C10": (
         True,
         "Lean 4 model of Register.write/matches/read in the three storages over a stream + Spec.C10.holds (recognition, identifier columns, one line / exact byte width, canonical read-back, tell() = partial sums) + differential correspondence on streams of 1-8 mixed registers",
-        "Theorems Props.C10.text_positional, text_delimited, text_mixed and binary: for every stream of registers in each storage the model's write-all / rewind / read-all run through one buffer satisfies the whole of Spec.C10.holds (one line resp. identifier width + field widths bytes, identifier columns / first token / bytes, recognised by its own type, canonical read-back, stream position after each read = end of what the write produced), under the per-field laws (proved for integers, literals, dates, floats and missing values; Props.C10.binary_nodate / binary_all: binary storage with the field law discharged from the C09 domain, dates included); binary contiguity is stated up to declaration order. Spec.C10.holds is evaluated on every generated stream on the implementation and on the model.",
+        "Theorems Props.C10.text_positional, text_delimited, text_mixed and binary: for every stream of registers in each storage the model's write-all / rewind / read-all run through one buffer satisfies the whole of Spec.C10.holds (one line resp. identifier width + field widths bytes, identifier columns / first token / bytes, recognised by its own type, canonical read-back, stream position after each read = end of what the write produced), under the per-field laws (proved for integers, literals, dates, floats and missing values; Props.C10.binary_nodate / binary_all: binary storage with the field law discharged from the C09 domain, dates included; Props.C10.text_positional_dom: positional text storage with the read law and the absence of line breaks discharged from the C01 domain); binary contiguity is stated up to declaration order. Spec.C10.holds is evaluated on every generated stream on the implementation and on the model.",
         'Trusted: Lean kernel; model; contiguous binary layouts (in any declaration order) and ASCII identifiers (domain).',
         "6/C10",
     ),
